@@ -138,7 +138,15 @@ func c26checkRemoval() {
 			any = any || c26.confirmed[j]
 		}
 		vrt.Assert(c26.inNetmap, "a node outside the network map keeps its copy")
-		vrt.Assert(any, "a node outside the container removes its copy only when some container node is a confirmed holder (maintenance and unreachable nodes do not count)")
+		mnt := false
+		for j := 1; j < c26N; j++ {
+			mnt = mnt || c26.netmapMnt[j] || c26.answer[j] == c26Maintenance
+		}
+		if mnt {
+			vrt.Assert(any, "a node outside the container removes its copy only when some container node is a confirmed holder (some container node is under maintenance; maintenance and unreachable nodes do not count)")
+		} else {
+			vrt.Assert(any, "a node outside the container removes its copy only when some container node is a confirmed holder (unreachable nodes do not count)")
+		}
 	}
 }
 
